@@ -78,7 +78,11 @@ def main(tier, seed):
                     vfsrun.validate_edit(chk, res, oracle, 'doc=%d ins=%d x%d' % (nn, kk, edits))
     finally:
         oracle.close(); vfsk.W.cleanup()
-    chk.assumptions += vfsrun.ASSUMPTIONS + ['Server::on_did_change\'s plumbing around the per-change calls (from_range + change_file_content) is covered structurally by C15, not here',
+    # (c) the batch hand-over to the analysis: ide::Change::apply
+    from . import changek
+    changek.part(chk, tier, jobs)
+    chk.assumptions += vfsrun.ASSUMPTIONS + ['part c: ide::Change::apply runs on its real MIR with the salsa database havoc\'d; k <= 3 (thorough 4) queued contents over 2 symbolic file ids; the obligation is that the last set_file_content for every file carries the last queued content; replayed against the real server with a multi-change notification',
+                                            'Server::on_did_change\'s plumbing around the per-change calls (from_range + change_file_content) is covered structurally by C15, not here',
                                             'CR is assumed to occur only immediately before LF (the property: line breaks are LF or CRLF)']
     chk.trusted += vfsrun.TRUSTED
     return chk.finish()
@@ -86,6 +90,11 @@ def main(tier, seed):
 
 def replay(path):
     d = json.load(open(path))
+    if d.get('site') == 'change-apply':
+        from mirsym import lsp_replay
+        c = d['cex']
+        print(json.dumps(lsp_replay.did_change_scenario(lsp_replay.build_binary(), c['doc'], c['changes']), indent=1))
+        return 0
     chk = Check('C13-replay', 'quick', 0)
     oracle = vfsrun.setup(chk)
     print(json.dumps(vfsrun.native_edit(oracle, d['cex'])[0], indent=1))
